@@ -13,6 +13,7 @@ type mergeState struct {
 	ls   *lsmState
 	op   *MergeOperator
 	adds []string
+	sibling bool
 }
 
 func mergeConcat(existing, val []byte) []byte { return append(append([]byte{}, existing...), val...) }
@@ -36,7 +37,7 @@ func init() {
 			lsmClose(x)
 		},
 		enabled: func(x *seqExec) []string {
-			ops := []string{"MA", "MC", "F", "C0", "C1", "R"}
+			ops := []string{"MA", "MC", "F", "C0", "C1", "R", "SX"} // SX: write a key that EXTENDS the merge key
 			if x.j.Bool("other", false) {
 				ops = append(ops, "Sa") // an unrelated key sharing tables with the merge key
 			}
@@ -51,6 +52,15 @@ func init() {
 					panic(err)
 				}
 				st.adds = append(st.adds, v)
+				return true
+			case "SX":
+				if st.sibling {
+					return false
+				}
+				st.sibling = true
+				if err := x.db.Update(func(txn *Txn) error { return txn.Set([]byte("m-sibling"), []byte("SIBLING")) }); err != nil {
+					panic(err)
+				}
 				return true
 			case "MC":
 				before := len(dumpAll(x.db)["m"])
@@ -93,7 +103,7 @@ func init() {
 			x.st = st.ls
 			k := lsmKey(x)
 			x.st = st
-			return fmt.Sprintf("%s|adds%d", k, 0)
+			return fmt.Sprintf("%s|adds%d|sib%v", k, 0, st.sibling)
 		},
 		describe: func(x *seqExec) string { return shapeString(x.db) },
 	})
